@@ -467,6 +467,7 @@ type aggT struct {
 	inconcWhy                 map[string]int
 	notes                     []string
 	raceObserved              map[string]int
+	fallbackSamples           []any
 }
 
 func aggregate(spec Spec, children []childOut, logDir string) aggT {
@@ -488,6 +489,9 @@ func aggregate(spec Spec, children []childOut, logDir string) aggT {
 				b := open[l.Case]
 				delete(open, l.Case)
 				a.evals++
+				if len(a.fallbackSamples) < 2 {
+					a.fallbackSamples = append(a.fallbackSamples, map[string]any{"case": l.Case, "descriptor": b.Desc, "counts": l.Counts})
+				}
 				for k, v := range l.Counts {
 					if strings.HasPrefix(k, "max_") {
 						if v > a.counts[k] {
@@ -655,6 +659,10 @@ func raceSig(blk string) string {
 
 func writeEvidence(spec Spec, tier string, seed int64, path string, a aggT, wall float64, fresh int, known map[string]int, floorFail []string) {
 	samples := a.samples
+	if len(samples) == 0 {
+		// no engine-provided sample: fall back to the descriptors of the first cases run
+		samples = a.fallbackSamples
+	}
 	if len(samples) == 0 {
 		samples = []any{}
 	}
